@@ -30,7 +30,10 @@ def _filter_valid_locales(locales):
 def _construct_locales(languages, region):
     if region:
         possible_locales = [language + "-" + region for language in languages]
-        locales = _filter_valid_locales(possible_locales)
+        locales = [
+            locale if _isvalidlocale(locale) else language
+            for language, locale in zip(languages, possible_locales)
+        ]
     else:
         locales = languages
     return locales
